@@ -531,6 +531,16 @@ pub fn c07_scenarios(tier: Tier) -> Vec<Scenario> {
     v.push(conc("shrink-vs-return/ms2", "shrink racing with a get / return on another thread", p, f, sc.clone()));
     sc.actors = vec![vec![get(), Op::Take], vec![Op::Resize(1)]];
     v.push(conc("shrink-vs-take/ms2", "shrink racing with take()", p, f, sc.clone()));
+    {
+        let mut sc = ConcScenario::new(PoolCfg::simple(2), vec![vec![Op::Retain], vec![Op::Resize(1), Op::Resize(2)], vec![get(), Op::Release]], base);
+        sc.prefill = 2;
+        v.push(conc_paid("resize-vs-retain/ms2", "shrink and grow racing with retain() and a getter", p, 0, sc));
+        let mut c = PoolCfg::simple(2);
+        c.recycle_menu = vec![Out::Ok, Out::Err];
+        let mut sc = ConcScenario::new(c, vec![vec![get(), Op::Release], vec![Op::Resize(1), Op::Resize(2)]], base);
+        sc.prefill = 2;
+        v.push(conc("resize-vs-failing-recycle/ms2", "shrink and grow while a getter's recycle fails and a replacement is created", p, 1, sc));
+    }
     let sc2 = ConcScenario::new(PoolCfg::simple(1), vec![vec![get(), Op::Release], vec![get(), Op::Release], vec![Op::Resize(2)]], base);
     v.push(conc_paid("grow-with-waiter/ms1", "grow while a getter waits: the added slot must be usable at once", if b.thorough { 3 } else { 2 }, 0, sc2));
     sc.actors = vec![vec![Op::Resize(1), Op::Resize(2)], vec![get(), Op::Release], vec![get(), Op::Release]];
@@ -643,6 +653,20 @@ pub fn c09_scenarios_for(tier: Tier, base: &'static [&'static str]) -> Vec<Scena
     v.push(conc("retain-vs-take/ms2", "retain racing with get + take", p, f, sc.clone()));
     sc.actors = vec![vec![Op::Retain, Op::Retain], vec![get(), Op::Release, get(), Op::Take]];
     v.push(conc("retain-twice-vs-get-take/ms2", "two retains racing with return and take", if b.thorough { 3 } else { 2 }, f, sc));
+    // retain / take against the operations that change the limit, and against
+    // each other ("histories mixing retain / take with ... resizes and close, at
+    // task and thread level")
+    let mut sc = ConcScenario::new(PoolCfg::simple(2), vec![vec![Op::Retain], vec![Op::Resize(1), Op::Resize(3)]], base);
+    sc.prefill = 2;
+    v.push(conc("retain-vs-resize/ms2", "retain racing with a shrink and a grow", p, f, sc.clone()));
+    sc.actors = vec![vec![Op::Retain], vec![Op::Close]];
+    v.push(conc("retain-vs-close/ms2", "retain racing with close(): every object is detached exactly once", p, f, sc.clone()));
+    sc.actors = vec![vec![Op::Retain], vec![Op::Retain], vec![get(), Op::Release]];
+    v.push(conc_paid("retain-vs-retain/ms2", "two retains and a getter", p, f, sc.clone()));
+    sc.actors = vec![vec![get(), Op::Take, get(), Op::Release], vec![Op::Resize(1)]];
+    v.push(conc("take-vs-shrink/ms2", "take() racing with a shrink: the taken object's slot is accounted once", p, f, sc.clone()));
+    sc.actors = vec![vec![get(), Op::Take], vec![Op::Close], vec![get(), Op::Take]];
+    v.push(conc_paid("take-vs-close/ms2", "take() on two threads racing with close()", p, f, sc));
     if b.thorough {
         v.extend(generated(base, Some(("RETAIN", vec![Op::Retain])), 2, 2, 0, false));
     }
